@@ -605,34 +605,44 @@ def check_components(prog: Program, res: Result) -> None:
     fi = prog.resolve_method("MolGraph", "connected_components")
     if fi is None:
         raise AnalysisError("MolGraph.connected_components vanished")
-    txt = utext(fi.node)
     inst = "MolGraph.connected_components partition shape"
-    loops = [n for n in ast.walk(fi.node) if isinstance(n, ast.For)]
+    me = fi.params()[0]
+    loops = [n for n in ast.walk(fi.node) if isinstance(n, ast.For)
+             and norm(n.iter) in (f"{me}.atoms", f"{me}._atom_attrs",
+                                  f"list({me}.atoms)", f"tuple({me}.atoms)")
+             and isinstance(n.target, ast.Name)]
     ok = False
     why = "no loop over self.atoms"
     for l in loops:
-        if norm(l.iter) in ("self.atoms", "self._atom_attrs"):
-            guard = [n for n in l.body if isinstance(n, ast.If)
-                     and " not in visited" in norm(n.test)]
-            if not guard:
-                why = "no `atom not in visited` guard"
-                continue
-            g = " ; ".join(norm(b, 200) for b in guard[0].body)
-            if "node_connected_component(" not in g:
-                why = "no component search in the guarded body"
-            elif ".append(" not in g:
-                why = "component not recorded"
-            elif not re.search(r"visited\.update\(|visited \|=|visited = "
-                               r"visited \| |visited = visited\.union\(", g):
-                why = "component not merged into visited"
-            elif any(isinstance(n, (ast.Break, ast.Return)) for n in ast.walk(l)):
-                why = "early exit from the atom loop"
-            else:
-                ok = True
+        a_ = l.target.id
+        guard = [n for n in l.body if isinstance(n, ast.If)
+                 and re.fullmatch(rf"{a_} not in (\w+)", norm(n.test))]
+        if not guard:
+            why = "no `atom not in visited` guard"
+            continue
+        V = re.fullmatch(rf"{a_} not in (\w+)", norm(guard[0].test)).group(1)
+        g = " ; ".join(norm(b, 200) for b in guard[0].body)
+        comp = re.search(rf"(\w+) = {me}\.node_connected_component\({a_}\)", g)
+        if "node_connected_component(" not in g:
+            why = "no component search in the guarded body"
+        elif comp is None:
+            why = None      # search present, spelling not followed
+        elif not re.search(rf"\.append\({comp.group(1)}\)", g):
+            why = "component not recorded"
+        elif not re.search(
+                rf"{V}\.update\({comp.group(1)}\)|{V} \|= {comp.group(1)}|"
+                rf"{V} = {V} \| {comp.group(1)}|"
+                rf"{V} = {V}\.union\({comp.group(1)}\)", g):
+            why = "component not merged into visited"
+        elif any(isinstance(n, (ast.Break, ast.Return)) for n in ast.walk(l)):
+            why = "early exit from the atom loop"
+        else:
+            ok = True
     if ok:
         res.ok("R-COMPONENT-SHAPE", inst, fi.loc())
-    elif why == "no loop over self.atoms":
-        res.unrecognised("R-COMPONENT-SHAPE", inst, fi.loc(), why)
+    elif why in (None, "no loop over self.atoms"):
+        res.unrecognised("R-COMPONENT-SHAPE", inst, fi.loc(),
+                         why or "component search not followed")
     else:
         res.bad("R-COMPONENT-SHAPE", f"{fi.short}: {why}", fi.loc(),
                 f"{inst}: {why}", instance=inst)
